@@ -31,6 +31,7 @@ fn main() {
                 println!("{:?} => {:?}", a, r.outcome);
             }
         }
+        "c19serve" => kv::props::c19::serve(),
         "runfile" => {
             let src = std::fs::read_to_string(&args[2]).unwrap();
             let limit = std::env::var("KV_LIMIT_MS").ok().and_then(|v| v.parse().ok()).unwrap_or(2000u64);
